@@ -88,6 +88,9 @@ class MaintRunner(core.Hooks):
                           f'{m.cap - m.util} (active {[(o["target"], o["tag"], o["need"]) for o in m.active]})', 'capacity')
             if not (0 <= used <= m.cap):
                 self.fail('C12.c', f'after {what}: capacity in use {used} outside [0, {m.cap}]', 'capacity_range')
+        rq, ar = getattr(mt, '_request_queue', None), getattr(mt, '_active_requests', None)
+        if rq is None or ar is None:
+            return      # a different internal representation: the public observations above and the records remain
         if len(mt._request_queue) != len(m.queue) or len(mt._active_requests) != len(m.active):
             self.fail('C12.b', f'after {what}: maintainer has {len(mt._request_queue)} queued / '
                       f'{len(mt._active_requests)} active orders, reference has {len(m.queue)} / {len(m.active)}: '
